@@ -103,14 +103,11 @@ let handle = function
     let c = int_of_string c in
     if curdb.(c) < 0 then "INVALID_ARGS 0 0" else
     let d = getdb curdb.(c) in
-    (match db_cread d (nat_of_int c) with
-     | Some (k0, _) -> let (b, cp) = api_key d.d_mode k0 in
-       let kb = bytes_of_hex k in
-       (* a number key may be given as 4 bytes; the stored key comes back as 8 *)
-       let kb = if d.d_mode.km_vnum && List.length kb = 4 then le_encode (nat_of_int 8) (le_decode kb) else kb in
-       Printf.sprintf "OK %d %s" (if b = kb then 1 else 0)
+    (match db_cread d (nat_of_int c), db_cmatch d (nat_of_int c) (bytes_of_hex k) with
+     | Some (k0, _), Some r -> let (_, cp) = api_key d.d_mode k0 in
+       Printf.sprintf "OK %d %s" (if r then 1 else 0)
          (if d.d_mode.km_compound || d.d_mode.km_vnum then string_of_z cp else "0")
-     | None -> "NOTFOUND 0 0")
+     | _, _ -> "NOTFOUND 0 0")
   | ["cmatchself"; c; w] ->
     let c = int_of_string c in
     if curdb.(c) < 0 then "INVALID_ARGS 0 0" else
@@ -118,7 +115,10 @@ let handle = function
     (match db_cread d (nat_of_int c) with
      | Some (k0, _) -> let (b, cp) = api_key d.d_mode k0 in
        if w = "4" && List.length b = 8 && Z.compare (le_decode b) (z_of_string "2147483647") = Gt then "SKIP" else
-       Printf.sprintf "OK 1 %s" (if d.d_mode.km_compound || d.d_mode.km_vnum then string_of_z cp else "0")
+       let kb = if w = "4" && List.length b = 8 then take 4 b else b in
+       (match db_cmatch d (nat_of_int c) kb with
+        | Some r -> Printf.sprintf "OK %d %s" (if r then 1 else 0) (if d.d_mode.km_compound || d.d_mode.km_vnum then string_of_z cp else "0")
+        | None -> "NOTFOUND 0 0")
      | None -> "NOTFOUND 0 0")
   | ["cset"; c; v; _] ->
     let c = int_of_string c in
